@@ -152,7 +152,7 @@ struct ArraysWorld : World {
 		for (int i = 0; i < nops; ++i) {
 			Op op;
 			static const int raw_ops[] = {OP_CLONE, OP_CLONE, OP_RELEASE, OP_APPEND, OP_APPEND, OP_INSERT, OP_INSERT, OP_SLICE, OP_SLICE, OP_RESERVE, OP_REDUCE, OP_CUT, OP_BINSERT, OP_BSET, OP_SET, OP_FLAGGED, OP_SWRITE, OP_DETACH};
-			static const int chr_ops[] = {OP_CLONE, OP_CLONE, OP_RELEASE, OP_SET, OP_SET, OP_INSERT, OP_SLICE, OP_RESERVE, OP_REDUCE, OP_CUT, OP_PRINTF, OP_PRINTF, OP_STRING, OP_APPEND, OP_BSET, OP_DETACH};
+			static const int chr_ops[] = {OP_CLONE, OP_CLONE, OP_RELEASE, OP_SET, OP_SET, OP_INSERT, OP_SLICE, OP_RESERVE, OP_REDUCE, OP_CUT, OP_PRINTF, OP_PRINTF, OP_STRING, OP_APPEND, OP_BSET, OP_DETACH, OP_FLAGGED};
 			static const int trk_ops[] = {OP_CLONE, OP_CLONE, OP_RELEASE, OP_SET, OP_SET, OP_INSERT, OP_SLICE, OP_RESERVE, OP_REDUCE, OP_CUT, OP_CUT, OP_BINSERT, OP_BSET, OP_APPEND, OP_FLAGGED, OP_DETACH, OP_RETYPE};
 			op.kind = kind == K_RAW ? r.pick(raw_ops) : kind == K_CHAR ? r.pick(chr_ops) : r.pick(trk_ops);
 			op.a = r.below(4) | (r.below(4) << 8);      // handle, second handle
